@@ -304,6 +304,24 @@ void OPNMIDIplay::realTime_ResetState()
     synth.m_masterVolume = MasterVolumeDefault;
 }
 
+void OPNMIDIplay::realTime_SongBegin()
+{
+    realTime_ResetState();
+
+    /* Playback can come here again (seek, rewind, loop): start with the programs, banks,
+     * synth mode and track ports a just loaded song has, not with what it left behind */
+    for(size_t ch = 0; ch < m_midiChannels.size(); ch++)
+    {
+        MIDIchannel &chan = m_midiChannels[ch];
+        chan.patch = 0;
+        chan.bank_msb = 0;
+        chan.bank_lsb = 0;
+        chan.is_xg_percussion = false;
+    }
+    m_synthMode = Mode_XG;
+    m_currentMidiDevice.clear();
+}
+
 bool OPNMIDIplay::realTime_NoteOn(uint8_t channel, uint8_t note, uint8_t velocity)
 {
     Synth &synth = *m_synth;
